@@ -1,7 +1,7 @@
 (* C14 - Evaluation limits and context never leak across calls, even after errors.
    Only property theorems here; proofs are in Proofs/EvalP.v. *)
 From Coq Require Import ZArith QArith List.
-From Dyce Require Import Base.Sums Base.Order Base.Hist Base.QcOrd Model.Select Model.Pool Model.Equality
+From Dyce Require Import Base.Sums Base.Order Base.Hist Base.QcOrd Base.ZOrd Model.Select Model.Pool Model.Equality
   Model.Eval Proofs.EvalP.
 Import ListNotations.
 
@@ -30,8 +30,12 @@ Theorem C14_later_evaluations_fresh : forall fault fuel st1 lim1 st2 lim2,
 Proof. exact (later_call_fresh O pad srcs sentinel cb). Qed.
 
 (* the injected exception reaches the caller unchanged if its invocation is reached, and otherwise the
-   evaluation is exactly the fault-free one *)
-Theorem C14_exception_propagates_unchanged : forall i fuel s st lim, (snd s <= i)%nat ->
+   evaluation is exactly the fault-free one - PROVIDED no callback catches exceptions
+   ([try_free r = true] iff the term r contains no RTry; with a try/except around a nested evaluation
+   the injected exception may be caught and the call completes: C14_try_catches_injected_exception and
+   C14_try_free_hypothesis_needed below) *)
+Theorem C14_exception_propagates_unchanged : (forall st rs, try_free (cb st rs) = true) ->
+  forall i fuel s st lim, (snd s <= i)%nat ->
   let R := call O pad srcs sentinel cb (Some i) fuel s st lim in
   ((i < snd (fst R))%nat /\ snd R = Err (UserError 7)) \/
   ((snd (fst R) <= i)%nat /\ R = call O pad srcs sentinel cb None fuel s st lim).
@@ -59,3 +63,30 @@ Print Assumptions C14_later_evaluations_fresh.
 Print Assumptions C14_exception_propagates_unchanged.
 Print Assumptions C14_only_recursion_error_swallowed.
 Print Assumptions C14_fresh_context.
+
+(* Non-vacuity of try/except.  The outer mechanic ([true]) rolls a d2 and, on every face, tries the
+   nested mechanic ([false], a d2 returning its face) and falls back to the outcome 0 when UserError 7
+   is raised.  Invocations: 0 = outer face 1, 1 = nested face 1 (the injected fault), 2 = outer face 2,
+   3, 4 = nested faces.  The injected exception is caught, the evaluation completes, and the fallback
+   outcome is in the result; without the fault the counter reaches 6 and the result is the plain d2. *)
+Definition catch7 (e : exn) : bool := match e with UserError 7 => true | _ => false end.
+Definition try_srcs (_ : bool) : list (source (T:=Z)) := [SH [(1%Z, 1%Z); (2%Z, 1%Z)]].
+Definition try_sent (_ : bool) : hist Z := [].
+Definition try_cb (st : bool) (rs : list (result (T:=Z))) : ret (T:=Z) (St:=bool) :=
+  if st then RTry catch7 (RCall false None) (ROut 0%Z)
+  else match rs with [[o]] => ROut o | _ => RRaise TypeError end.
+Example C14_try_catches_injected_exception :
+  call ZO 0%Z try_srcs try_sent try_cb (Some 1%nat) 5 (None, 0%nat) true (Some (RInt 2))
+    = ((None, 5%nat), Ok [(0%Z, 2%Z); (1%Z, 1%Z); (2%Z, 1%Z)]) /\
+  call ZO 0%Z try_srcs try_sent try_cb None 5 (None, 0%nat) true (Some (RInt 2))
+    = ((None, 6%nat), Ok [(1%Z, 1%Z); (2%Z, 1%Z)]).
+Proof. vm_compute. split; reflexivity. Qed.
+Print Assumptions C14_try_catches_injected_exception.
+(* hence the hypothesis of C14_exception_propagates_unchanged cannot be dropped: for this mechanic the
+   fault is reached (the counter passes 1) and yet the call does not raise *)
+Example C14_try_free_hypothesis_needed :
+  let R := call ZO 0%Z try_srcs try_sent try_cb (Some 1%nat) 5 (None, 0%nat) true (Some (RInt 2)) in
+  ~ (((1 < snd (fst R))%nat /\ snd R = Err (UserError 7)) \/
+     ((snd (fst R) <= 1)%nat /\ R = call ZO 0%Z try_srcs try_sent try_cb None 5 (None, 0%nat) true (Some (RInt 2)))).
+Proof. vm_compute. intros [[_ H]|[_ H]]; discriminate H. Qed.
+Print Assumptions C14_try_free_hypothesis_needed.
